@@ -50,7 +50,7 @@ PROPS = {
         "engine": "dsim",
         "level": "fault_enumeration",
         "technique": "deterministic simulation with fault injection (crash-point enumeration over the response byte stream + seeded schedules)",
-        "rule": "even run indices enumerate the crash-point grid of a scripted exchange (4 held requests on one connection, 1 node, pool 1): every cut offset 0..200 of the response byte stream x {FIN, RST, garbage header at a frame boundary, silent stall}, under seeded schedules/fragmentation; odd run indices sample 1..3 nodes x 0/2/3 shards x pool 1..3 x 1..32 in-flight requests (idempotent or not) x 1..3 fault rounds x {FIN, RST, garbage header, bad version, unsolicited stream id, stall} x offset x victim (pool or control connection) x timing relative to writes, keepalive interval/timeout, request timeout on/off, retry policy. Non-trivial = at least one fault was injected on a live connection. Distinct = distinct (poll-sequence hash, event-log hash).",
+        "rule": "even run indices enumerate the crash-point grid of a scripted exchange (4 held requests on one connection, 1 node, pool 1): every cut offset 0..200 of the response byte stream x {FIN, RST, garbage header at a frame boundary, silent stall}, under seeded schedules/fragmentation; odd run indices sample 1..3 nodes x 0/2/3 shards x pool 1..3 x 1..32 in-flight requests (idempotent or not) x 1..3 fault rounds x {FIN, RST, garbage header, bad version, unsolicited stream id, stall} x offset x victim (pool or control connection) x timing relative to writes, keepalive interval/timeout, request timeout on/off, retry policy, and (1 in 2) a background task that keeps sending a request every 100..900 ms on the same pools during the whole fault phase (so that a stall meets a connection that is in use, not idle). Non-trivial = at least one fault was injected on a live connection. Distinct = distinct (poll-sequence hash, event-log hash).",
         "assumptions": COMMON_ASSUMPTIONS + [
             "oracles: (a) every call outstanding at fault time returns within hold + keepalive interval + timeout (+ the same again for silent faults) + 20 s; (b) every Ok result carries its own marker; (c) a non-idempotent request is received at most once; (d) keepalive interval + timeout + 15 s after faults stop, 8 fresh idempotent requests all succeed; (e) a request outstanding on a connection that was killed or poisoned can only succeed through a second attempt",
             "garbage is injected at frame boundaries only: a corruption inside a frame body that keeps the framing intact is undetectable by any client and is not part of the property's fault list",
@@ -61,7 +61,7 @@ PROPS = {
         "engine": "dsim",
         "level": "fault_enumeration",
         "technique": "deterministic simulation with fault injection (in-flight damage of response frames of a scripted exchange: truncation enumerated at every offset of every frame, seeded bit flips / field-aware overwrites / header damage / garbage / deep nesting, child-process crash and allocation monitors)",
-        "rule": "a real session runs a scripted exchange touching every response kind the mock emits (SUPPORTED, READY/AUTHENTICATE/AUTH_SUCCESS, PREPARED and paged Rows of system tables, Rows with native/collection/tuple/UDT/nested types read through CqlValue rows, Void with warnings, tracing id, every ERROR code, SetKeyspace, SchemaChange, EVENTs, tablets custom payload, LZ4/Snappy bodies). Even run indices enumerate truncation (then FIN) of frame f at offset o for EVERY (f, o) with o < len(f) of the fixed-seed exchange (frame lengths measured by a dry run; counter enum_truncation_points_total vs enum_truncations_fired); odd run indices sample feature combinations and one damage to one seeded frame: bit flips, 1/2/4-byte overwrites with 0/-1/1/i32::MAX/... at any offset before or after compression (covers every length/count/flag/type-id field), header flags/opcode/version/length, LZ4 length prefix, garbage frame or body, result metadata nested 8..120000 levels deep; 1 in 10 sampled runs is damage-free and checks exact round trip. Non-trivial = a damage fired. Distinct = distinct (poll-sequence hash, event-log hash).",
+        "rule": "a real session runs a scripted exchange touching every response kind the mock emits (SUPPORTED, READY/AUTHENTICATE/AUTH_SUCCESS, PREPARED and paged Rows of system tables, Rows with native/collection/tuple/UDT/nested types read through CqlValue rows, Void with warnings, tracing id, every ERROR code, SetKeyspace, SchemaChange, EVENTs, tablets custom payload, LZ4/Snappy bodies). Even run indices enumerate truncation (then FIN) of frame f at offset o for EVERY (f, o) with o < len(f) of the fixed-seed exchange (frame lengths measured by a dry run; counter enum_truncation_points_total vs enum_truncations_fired); odd run indices sample feature combinations and one damage to one seeded frame: bit flips, 1/2/4-byte overwrites with 0/-1/1/i32::MAX/... at any offset before or after compression (covers every length/count/flag/type-id field), header flags/opcode/version/length, LZ4 length prefix, garbage frame or body, result metadata nested 8..120000 levels deep, custom (type id 0) columns whose class string comes from a seeded grammar fuzzer over the marshal class syntax (nested parentheses to depth 100000, unbalanced, empty parameters, hex names incl. odd length / non-hex / non-ASCII alphanumerics, frozen/reversed wrappers, unknown classes); 1 in 10 sampled runs is damage-free and checks exact round trip. Non-trivial = a damage fired. Distinct = distinct (poll-sequence hash, event-log hash).",
         "assumptions": COMMON_ASSUMPTIONS + [
             "oracles: child process ends normally (no panic, abort, signal) under RLIMIT_AS 12 GiB and an 8 MiB stack; no single allocation above 64 MiB + 16 x bytes delivered so far (reported before the allocation is forwarded); no wall-clock runaway (30 s kill = busy loop); calls with a client-side timeout return within 120 virtual s; damage-free runs decode exactly what was encoded; after the damaged exchange a fresh request is served within 90 virtual s",
             "response kinds covered = those the mock encodes; typed targets = CqlValue rows plus the workload's tuples, not the whole carrier matrix (that part of the quantifier is input-only)",
@@ -75,7 +75,7 @@ PROPS = {
         "part_engines": {"C18": "tsim", "C18e": "dsim"},
         "level": "exploration",
         "technique": "deterministic simulation with fault injection (shuttle-controlled thread schedules over the real MonotonicTimestampGenerator with a seeded faulty wall clock as scheduling point)",
-        "rule": "each case = one shuttle execution: 2..4 threads x 2..6 next_timestamp() calls on one real MonotonicTimestampGenerator; the hooked wall clock returns a seeded walk (stall, repeated microsecond, step back up to 3 s, step/jump forward, pre-epoch) and is a scheduling point sitting between the load and the compare_exchange; schedulers: seeded random and PCT depth 2-3; workload drawn from shuttle::rand so a recorded schedule replays the whole execution. Non-trivial = operations of two threads overlapped or a clock fault fired. Distinct = distinct hashes of the observed event history. Part C18e (engine A, end-to-end): a real session with MonotonicTimestampGenerator (with/without warnings) on 1..3 nodes, 1..16 concurrent tasks x 1..8 writes (unprepared, prepared, batch; 1 in 4 with an explicit statement timestamp), retryable server errors, and a seeded faulty wall clock (stall, tick back, step back up to 3 s, jumps); the mock records the timestamp of every QUERY/EXECUTE/BATCH frame: generated timestamps are pairwise distinct over all attempts, an explicit statement timestamp is exactly the one on the wire, and no write arrives without a timestamp.",
+        "rule": "each case = one shuttle execution: 2..4 threads x 2..6 next_timestamp() calls on one real MonotonicTimestampGenerator; the hooked wall clock returns a seeded walk (stall, repeated microsecond, step back up to 3 s, step/jump forward, pre-epoch) and is a scheduling point sitting between the load and the compare_exchange; schedulers: seeded random and PCT depth 2-3; workload drawn from shuttle::rand so a recorded schedule replays the whole execution. Non-trivial = operations of two threads overlapped or a clock fault fired. Distinct = distinct hashes of the observed event history. Part C18e (engine A, end-to-end): a real session with MonotonicTimestampGenerator (with/without warnings) on 1..3 nodes, 1..16 concurrent tasks x 1..8 writes (unprepared, prepared, batch of prepared statements, batch containing an unprepared statement with values - prepared on the fly, batch rebuilt; 1 in 4 with an explicit statement timestamp), retryable server errors, and a seeded faulty wall clock (stall, tick back, step back up to 3 s, jumps); the mock records the timestamp of every QUERY/EXECUTE/BATCH frame: generated timestamps are pairwise distinct over all attempts, an explicit statement timestamp is exactly the one on the wire, and no write arrives without a timestamp.",
         "assumptions": [
             "sequential consistency per scheduling point (one shuttle thread runs at a time; std atomics are not remodelled): weak-memory effects are out of scope",
             "scheduling points are the hooked clock read and the harness's own yields",
@@ -90,7 +90,7 @@ PROPS = {
         "part_engines": {"C19": "tsim", "C19e": "dsim", "C19p": "hsim"},
         "level": "exploration",
         "technique": "deterministic simulation with fault injection (shuttle-controlled producer/consumer schedules over the real merge channel with hook-supplied scheduling points between every shared-state operation)",
-        "rule": "each case = one shuttle execution of a producer thread (modify: push unique id / no-op / retract; drop sender early, late or after an acknowledged sentinel) and a consumer thread (recv under block_on, recv cancelled after one poll and restarted, try_recv, early receiver drop) on one real merge_channel; scheduling points from cfg(scylla_verif) hooks between the flag loads/stores, slot critical section, notify_one, enable() and take(); schedulers: seeded random and PCT depth 2-3. Non-trivial = producer and consumer operations overlapped or a fault (cancel, retract, drop race) fired. Distinct = distinct hashes of the observed event history incl. the scheduling sites hit. Part C19e (engine A, end-to-end): a real session on 1..4 nodes (+1..3 spare nodes), 0..3 tasks calling refresh_metadata() at seeded instants while 1..14 seeded events happen: node joins / leaves / is replaced under the same address with a new host id / changes rack, each with or without the corresponding EVENT, event floods (10..73 STATUS_CHANGE/SCHEMA_CHANGE events), control-connection resets; system tables paged by 0..2 rows; oracles: every refresh_metadata() call is answered (Ok or Err) within 240 virtual s, and after faults stop and one successful refresh the published ClusterState node set (host ids) equals the mock cluster's. Part C19p (hsim, poll-granularity driver, single thread, the harness owns the only waker): seeded sequences of <= 24 producer steps {modify(push id), modify(no-op), modify(retract), drop} and consumer steps {start recv, poll, cancel, try_recv, drop receiver}, with producer steps also injected inside a recv poll at the hook scheduling points; reference model = one pending vector; oracles c19.lost_or_dup, c19.lost_wakeup (model says pending and the last poll returned Pending => the waker was invoked; a fresh recv polled once returns Ready), c19.none_early, c19.send_error.",
+        "rule": "each case = one shuttle execution of a producer thread (modify: push unique id / no-op / retract; drop sender early, late or after an acknowledged sentinel) and a consumer thread (recv under block_on, recv cancelled after one poll and restarted, try_recv, early receiver drop) on one real merge_channel; scheduling points from cfg(scylla_verif) hooks between the flag loads/stores, slot critical section, notify_one, enable() and take(); schedulers: seeded random and PCT depth 2-3. Non-trivial = producer and consumer operations overlapped or a fault (cancel, retract, drop race) fired. Distinct = distinct hashes of the observed event history incl. the scheduling sites hit. Part C19e (engine A, end-to-end): a real session on 1..4 nodes (+1..3 spare nodes), 0..3 tasks calling refresh_metadata() at seeded instants while 1..14 seeded events happen: node joins / leaves / is replaced under the same address with a new host id / changes rack, each with or without the corresponding EVENT, event floods (10..73 STATUS_CHANGE/SCHEMA_CHANGE events), control-connection resets; system tables paged by 0..2 rows; oracles: every refresh_metadata() call is answered (Ok or Err) within 240 virtual s (c19.refresh_unanswered); a refresh_metadata() that returned Ok with no ring change between its start and its return has published a ClusterState whose node set equals the mock's ring at that time (c19.published_state_stale); a ring change announced by an EVENT is reflected in the published state within 30 virtual s without any explicit refresh (c19.event_not_reflected); after faults stop and one successful refresh the published ClusterState node set (host ids) equals the mock cluster's (c19.published_state_stale). Part C19p (hsim, poll-granularity driver, single thread, the harness owns the only waker): seeded sequences of <= 24 producer steps {modify(push id), modify(no-op), modify(retract), drop} and consumer steps {start recv, poll, cancel, try_recv, drop receiver}, with producer steps also injected inside a recv poll at the hook scheduling points; reference model = one pending vector; oracles c19.lost_or_dup, c19.lost_wakeup (model says pending and the last poll returned Pending => the waker was invoked; a fresh recv polled once returns Ready), c19.none_early, c19.send_error.",
         "assumptions": [
             "sequential consistency per scheduling point; tokio::sync::Notify is real code but its internals have no extra scheduling points",
             "oracles: concatenation of received values == merged-and-not-retracted ids in order, each once; None only after the sender is gone and the last value taken; a consumer parked forever while a value is pending or the sender is gone = shuttle deadlock = lost wake-up; modify errs when the receiver's drop completed before the call and succeeds when the drop had not begun when it returned (the racing window is not judged)",
@@ -102,9 +102,9 @@ PROPS = {
         "engine": "dsim",
         "level": "exploration",
         "technique": "deterministic simulation with fault injection (per-attempt outcome sequences scripted by the mock cluster; mock frame history vs recorded policy decisions)",
-        "rule": "each run = 2..6 unsharded nodes, 1..12 uniquely marked requests (unprepared select/write, prepared select/insert, batch) x idempotent flag x {Default, DowngradingConsistency, Fallthrough} (wrapped in a recording RetryPolicy) x consistency incl. SERIAL/LOCAL_SERIAL; for every attempt that reaches a node the tape picks the outcome: success, every DbError kind with randomised fields (Unavailable alive/required, Read/WriteTimeout received/required/data_present/write type, Overloaded, ServerError, Truncate, Bootstrapping, Read/WriteFailure, FunctionFailure, Invalid, Syntax, Unauthorized, AlreadyExists, Config, RateLimit, unknown code), connection reset after the request was received (sequential runs only), truncated RESULT body. Non-trivial = at least one request needed more than one attempt. Distinct = distinct (poll-sequence hash, event-log hash).",
+        "rule": "each run = 2..6 unsharded nodes, 1..12 uniquely marked requests (unprepared select/write, prepared select/insert, batch) x idempotent flag x {Default, DowngradingConsistency, Fallthrough} (wrapped in a recording RetryPolicy) x consistency incl. SERIAL/LOCAL_SERIAL; for every attempt that reaches a node the tape picks the outcome: success, every DbError kind with randomised fields (Unavailable alive/required, Read/WriteTimeout received/required/data_present/write type, Overloaded, ServerError, Truncate, Bootstrapping, Read/WriteFailure, FunctionFailure, Invalid, Syntax, Unauthorized, AlreadyExists, Config, RateLimit, unknown code), connection reset after the request was received, a write failure of the NEXT frame written on that connection while the request is unanswered (both in sequential runs only), truncated RESULT body; outcome selection per run is independent per attempt, sticky (a node keeps answering the same error) or a fixed pattern crossing target boundaries (e.g. ReadTimeout, Overloaded, ReadTimeout). Non-trivial = at least one request needed more than one attempt. Distinct = distinct (poll-sequence hash, event-log hash).",
         "assumptions": COMMON_ASSUMPTIONS + [
-            "oracles, from the mock's frame history per marker and the logged decisions: (a) a non-idempotent request has a further frame only after Unavailable / IsBootstrapping / ReadTimeout; (b) Default policy at serial consistency: one frame; (c) frames <= nodes + 2 (Default) / + 1 (Downgrading) / exactly 1 (Fallthrough); (d) frames <= 1 + retry decisions, nothing after DontRetry / IgnoreWriteError; (e) each re-sent frame carries the consistency the policy chose and goes to the same / another node as decided; (f) the caller sees success iff the last attempt succeeded or the write error was ignored",
+            "oracles, from the mock's frame history per marker and the logged decisions: (a) a non-idempotent request has a further frame only after Unavailable / IsBootstrapping / ReadTimeout; (b) Default policy at serial consistency: one frame; (c) frames <= nodes + 2 (Default) / + 1 (Downgrading) / exactly 1 (Fallthrough); (d) frames <= 1 + retry decisions, nothing after DontRetry / IgnoreWriteError; same-node retries of one request <= 1 per once-per-request rule of the policy (c06.too_many_same_node_retries); (e) each re-sent frame carries the consistency the policy chose and goes to the same / another node as decided; (f) the caller sees success iff the last attempt succeeded or the write error was ignored",
             "no speculative execution, no evictions, no request timeout in these runs; client-side stream-id exhaustion is not generated (covered by C02)",
             "connection resets are scripted only when requests run one at a time, so that one request's reset cannot destroy another request's attempt on the shared connection",
         ],
@@ -116,9 +116,9 @@ PROPS = {
         "part_engines": {"C13": "dsim", "C13d": "hsim"},
         "level": "exploration",
         "technique": "deterministic simulation with fault injection (mock nodes delay and answer each attempt per seeded script on virtual time; ties between the speculative timer and completions)",
-        "rule": "each run = 2..6 unsharded nodes, SimpleSpeculativeExecutionPolicy(max 0..4, interval 50/100/200 ms), retry policy Fallthrough (2/3) or Default, 1..8 sequential uniquely marked requests, idempotent (3/4) or not; for every attempt reaching a node the tape picks a completion delay on the grid 0, d/2, d, ..., 7d/2 and an outcome: success, definitive error (Invalid/Syntax/Unauthorized/AlreadyExists), ignorable error (Overloaded/Unavailable/IsBootstrapping), connection reset. Non-trivial = at least one speculative execution reached a node. Distinct = distinct (poll-sequence hash, event-log hash). Part C13d (hsim, direct driver): the real speculative_execution::execute loop driven through a wrapper on a paused current_thread runtime (one forked process per case because futures::select! breaks ties with process-global state) with up to 5 scripted fibers, each (completion delay in {0, d/2, ..., 3d}, outcome in {success, definitive error, ignorable error, plan exhausted}), max 0..4, exact virtual instants: oracles c13.too_many, c13.too_early, c13.first_real_answer (earliest real outcome, returned at that instant, ties: any tied), c13.last_error (returns the last ignorable error exactly when every started fiber has finished and none may still start), c13.hang.",
+        "rule": "each run = 2..6 unsharded nodes, SimpleSpeculativeExecutionPolicy(max 0..4, interval 50/100/200 ms), retry policy Fallthrough (2/3) or Default, 1..8 sequential uniquely marked requests through query_unpaged or (2 in 5) the paging iterator query_iter, idempotent (3/4) or not; for every attempt reaching a node the tape picks a completion delay on the grid 0, d/2, d, ..., 7d/2 and an outcome: success, definitive error (Invalid/Syntax/Unauthorized/AlreadyExists), ignorable error (Overloaded/Unavailable/IsBootstrapping), connection reset. Non-trivial = at least one speculative execution reached a node. Distinct = distinct (poll-sequence hash, event-log hash). Part C13d (hsim, direct driver): the real speculative_execution::execute loop driven through a wrapper on a paused current_thread runtime (one forked process per case because futures::select! breaks ties with process-global state) with up to 5 scripted fibers, each (completion delay in {0, d/2, ..., 3d}, outcome in {success, definitive error, ignorable error, plan exhausted}), max 0..4, exact virtual instants: oracles c13.too_many, c13.too_early, c13.first_real_answer (earliest real outcome, returned at that instant, ties: any tied), c13.last_error (returns the last ignorable error exactly when every started fiber has finished and none may still start), c13.hang.",
         "assumptions": COMMON_ASSUMPTIONS + [
-            "oracles from the mock's per-attempt history: (a) a non-idempotent request never has unanswered attempts on two nodes at once (any retry policy); with Fallthrough (one attempt per execution): (b) executions <= 1 + max (1 if not idempotent), the k-th reaches a node no earlier than k x interval; (c) executions go to distinct nodes; (d) the call returns a success/definitive outcome that is the earliest one (ties within 4 ms: any of the tied), no later than 6-10 ms after it was sent and not before; (e) without any real answer it fails with an ignorable error, not before every started execution finished; (f) it returns within 120 virtual s",
+            "oracles from the mock's per-attempt history: (a) a non-idempotent request never has unanswered attempts on two nodes at once (any retry policy); with Fallthrough (one attempt per execution): (b) executions <= 1 + max (1 if not idempotent), the k-th reaches a node no earlier than k x interval; (c) executions go to distinct nodes; (d) the call returns a success/definitive outcome that is the earliest one (ties within 4 ms: any of the tied), no later than 6-10 ms after it was sent and not before; (e) without any real answer it fails with an ignorable error, not before every started execution finished; (f) it returns within 120 virtual s; (g) c13.gave_up_early: it does not fail with an ignorable error while an execution that later produced a real answer was still in flight",
             "exact return instants of case (e) and exact tie handling are decided by the direct driver part (C13d), not end-to-end",
         ],
         "expected_probes": ["speculative_executions_seen", "Rst", "SrvError"],
@@ -127,7 +127,7 @@ PROPS = {
         "engine": "dsim",
         "level": "exploration",
         "technique": "deterministic simulation with fault injection (server-side page scripts: seeded page splits, paging states and per-page faults; consumer behaviours)",
-        "rule": "each run = 1..5 unsharded nodes, 1..5 paged queries (query_iter unprepared / execute_iter prepared, idempotent, Default retry policy 3/4 or Fallthrough) over result sets of 0..200 uniquely numbered rows which the mock splits by a seeded page-size sequence (empty pages anywhere, whole-rest pages, trailing empty pages, <= 40 pages) with random paging-state byte strings; per page request the tape may inject a retryable error (Overloaded/IsBootstrapping/ServerError), a non-retryable error (Invalid/Syntax), a connection reset instead of the answer, or a delay of seconds; consumers: eager, slow (sleeps between rows), early drop after k rows; system tables are served to the control-connection pager in pages of 1..3 rows. Non-trivial = at least one query needed more than one page request. Distinct = distinct (poll-sequence hash, event-log hash).",
+        "rule": "each run = 1..5 unsharded nodes, 1..5 paged queries (query_iter unprepared / execute_iter prepared, idempotent, Default retry policy 3/4 or Fallthrough) over result sets of 0..200 uniquely numbered rows which the mock splits by a seeded page-size sequence (empty pages anywhere, whole-rest pages, trailing empty pages, <= 40 pages) with random paging-state byte strings; per page request the tape may inject a retryable error (Overloaded/IsBootstrapping/ServerError), a non-retryable error (Invalid/Syntax), a connection reset instead of the answer, an UNPREPARED answer (statement evicted between two pages; the repeated request must carry the same paging state), or a delay of seconds; request timeout none / 2 s / 5 s / 30 s per page request; consumers: eager, slow (sleeps between rows), stalled for 1..4 s at a chosen row (longer than the request timeout while the worker is blocked handing over a page), early drop after k rows; system tables are served to the control-connection pager in pages of 1..3 rows. Non-trivial = at least one query needed more than one page request. Distinct = distinct (poll-sequence hash, event-log hash).",
         "assumptions": COMMON_ASSUMPTIONS + [
             "oracles: (a) rows seen are always a prefix of the server's rows in order; on normal end they are all rows and the last page was delivered; (b) from the server's history: first request carries no paging state, each further one asks for the same page only after a failed attempt at it, or for the next page only after the current one was delivered; a state the server never issued or a request beyond the last page is a violation; (c) when the stream fails, exactly the rows of the pages before the failed page were seen; (d) after an early drop at most 2 further distinct pages are requested; control-connection pager: published topology has every node once",
             "no speculative execution in these runs",
@@ -138,7 +138,7 @@ PROPS = {
         "engine": "dsim",
         "level": "exploration",
         "technique": "deterministic simulation with fault injection (per-node eviction / restart / schema-change / id-change histories interleaved with concurrent executions; server-side frame history vs caller-side decoded rows)",
-        "rule": "each run = 1..4 unsharded nodes, metadata-id extension on/off, use_cached_result_metadata on/off, 1..6 concurrent callers x 2..8 operations (execute select, execute insert, batch of prepared inserts, paged execute) on two shared prepared statements, and 1..10 seeded chaos events: evict a statement from a node's cache, schema change of the SELECT (result columns added in front or at the end => new result metadata id, rows re-encoded), node crash+restart (cache lost), statement id change (re-preparation yields another id). Non-trivial = at least one UNPREPARED answer or more than one schema version. Distinct = distinct (poll-sequence hash, event-log hash).",
+        "rule": "each run = 1..4 unsharded nodes, metadata-id extension on/off, use_cached_result_metadata on/off, 1..6 concurrent callers x 2..8 operations (execute select, execute insert, batch of two DISTINCT prepared inserts, paged execute) on three shared prepared statements, and 1..10 seeded chaos events: evict a statement from a node's cache, evict everything from a node's cache, schema change of the SELECT (result columns added in front or at the end => new result metadata id, rows re-encoded), node crash+restart (cache lost), statement id change (re-preparation yields another id). Non-trivial = at least one UNPREPARED answer or more than one schema version. Distinct = distinct (poll-sequence hash, event-log hash).",
         "assumptions": COMMON_ASSUMPTIONS + [
             "oracles from the mock's frame history: (a) an UNPREPARED answer on a live connection is followed by a PREPARE of the same text on that connection and, if the id is unchanged, by an EXECUTE/BATCH equal to the original in id, value bytes, consistency, serial consistency, page size, paging state and timestamp; (b) if re-preparation returned another id no EXECUTE of that request follows; (c) rows decoded by the caller (as CqlValue rows with column names) equal the mock's logical rows under the schema version the answer was encoded with, whenever that version was sent along or is unambiguously the one most recently announced (own preparation, or anything carrying a metadata id) with no concurrent announcement; (d) every presented result metadata id was announced by the mock, and after quiescence it is the latest; (e) runs with evictions only: no caller sees an error",
             "a PREPARED answer to an internal re-preparation without the metadata-id extension carries no id; the driver then keeps its cached metadata (CQL v4 cannot signal the change) - such answers are not counted as announcements (counter undetectable_schema_change_skipped)",
@@ -147,13 +147,15 @@ PROPS = {
     },
     "C12": {
         "engine": "dsim",
+        "parts": ["C12", "C12t"],
+        "part_engines": {"C12": "dsim", "C12t": "dsim"},
         "level": "exploration",
         "technique": "deterministic simulation with fault injection (seeded cluster layouts; the mock recomputes token, replicas and shard with independent implementations of Murmur3, ring walk, NetworkTopologyStrategy and shard-of-token)",
-        "rule": "each run = a mock cluster of 1..6 nodes x 1..3 datacenters x 2 racks, 1..6 random vnode tokens per node, shard count 0 (Cassandra-like)/1/2/3/4/8 with msb-ignore 0/7/12, keyspaces with SimpleStrategy(rf 1..3) and NetworkTopologyStrategy(rf 0..3 per DC), pool PerShard(n)/PerHost(n) n=1..3, shard-aware port advertised or not, load-balancing preference none / DC / DC+rack with or without DC failover; optionally a node restart (possibly resharded) before the measured phase; then 30..150 executions of prepared statements with 1-, 2- and 3-component partition keys bound through permuted markers and random keys. Non-trivial = at least one first attempt was checked against a non-empty reachable+permitted replica set. Distinct = distinct (poll-sequence hash, event-log hash).",
+        "rule": "each run = a mock cluster of 1..6 nodes x 1..3 datacenters x 2 racks, 1..6 random vnode tokens per node, shard count 0 (Cassandra-like)/1/2/3/4/8 with msb-ignore 0/7/12, keyspaces with SimpleStrategy(rf 1..3) and NetworkTopologyStrategy(rf 0..3 per DC), pool PerShard(n)/PerHost(n) n=1..3, shard-aware port advertised or not, load-balancing preference none / DC / DC+rack with or without DC failover; optionally source-port rewriting (NAT: 1 in 4 runs every connection through the shard-aware port reaches the node from another port, so the node binds it to a shard other than the one the port was drawn for); optionally a node restart (possibly resharded) before the measured phase; then 30..150 executions of prepared statements with 1-, 2- and 3-component partition keys bound through permuted markers and random keys. Non-trivial = at least one first attempt was checked against a non-empty reachable+permitted replica set. Distinct = distinct (poll-sequence hash, event-log hash). Part C12t (tablet clause; the C15e scenario run with oracle ids c12t.*): 2..5 sharded nodes (+ optionally a spare node that joins mid-run, with or without NEW_NODE event, so that tablets name a replica the client does not know yet), a tablet keyspace whose server-side layout changes 0..5 times (tablet moved between nodes and/or shards, split, merged, boundary shifted by one token), tablets-routing-v1 feedback attached exactly when a request reached a non-replica; oracles: a request whose token is covered by a tablet the client learnt before it was submitted reaches a replica node of that tablet (c12t.routing_ignores_tablet) on the tablet's shard when the pool has had a connection to it for 320 virtual ms (c12t.routing_wrong_shard); after quiescence ClusterState::get_token_endpoints equals the latest-wins model (c12t.lookup_after_quiescence).",
         "assumptions": COMMON_ASSUMPTIONS + [
             "oracle per execution, from the FIRST frame of its marker at the mock: with R = model replicas(token) restricted to nodes the driver reported connected right before submission, up, and permitted by the load-balancing configuration (preferred DC only when failover is off): if R is non-empty the frame arrived at a node of R, in the preferred DC when R has a member there; on a sharded replica node the frame arrived on a connection whose server-assigned shard equals the model's shard-of(token) whenever the mock sees a live pool connection to that shard",
             "the model (Murmur3 with Cassandra's signed-tail quirk, compound-key serialisation, ring walk, Cassandra's NTS rack rule, ScyllaDB's biased-token shard function) is written from the algorithm descriptions and self-checked against the Murmur3 vectors present as literals in the repo's tests",
-            "tablet-based routing is exercised by the C15 end-to-end part, not here",
+            "tablet-based routing is decided by part C12t (same scenario as C15e)",
         ],
         "expected_probes": ["first_attempts_checked", "shard_checked", "NodeRestart"],
     },
@@ -161,7 +163,7 @@ PROPS = {
         "engine": "dsim",
         "level": "exploration",
         "technique": "deterministic simulation with fault injection (USE calls interleaved with connection loss, refill, node restart and node addition; the mock tracks the keyspace of every connection at frame arrival)",
-        "rule": "each run = 1..4 nodes (+1 that may join later via NEW_NODE event), 0/2/3 shards, pool PerHost(1..3), 1..4 requester tasks issuing uniquely marked requests every 1..40 ms, one task calling use_keyspace one call at a time with names from a pool (incl. a case-sensitive one), USE answers slowed (20..800 ms) or failed (Overloaded) at seeded rates, and 0..7 chaos events: reset of a live pool connection, node crash + restart, node addition; then 2..10 candidate names of length 0..60 over an alphabet with quotes, semicolons, whitespace, non-ASCII. Non-trivial = at least one request frame was checked inside a constrained window. Distinct = distinct (poll-sequence hash, event-log hash).",
+        "rule": "each run = 1..4 nodes (+1 that may join later via NEW_NODE event), 0/2/3 shards, pool PerHost(1..3), 1..4 requester tasks issuing uniquely marked requests every 1..40 ms, one task calling use_keyspace one call at a time with names from a pool (incl. a case-sensitive one), USE answers slowed (20..800 ms) or failed (Overloaded) at seeded rates, and 0..7 chaos events: reset of a live pool connection, node crash + restart, node addition; a failed call is (2 in 3) followed by a call with the SAME name; then 2..10 candidate names of length 0..60 over an alphabet with quotes, semicolons, whitespace, non-ASCII, each tried twice in a row (both must be rejected). Non-trivial = at least one request frame was checked inside a constrained window. Distinct = distinct (poll-sequence hash, event-log hash).",
         "assumptions": COMMON_ASSUMPTIONS + [
             "oracle: for every request invoked after the governing use_keyspace(k) call returned Ok (governing = last call started before the invocation) and whose frame arrived before the next call started: the connection's keyspace at the mock when the frame arrived is k (lower-cased unless case-sensitive); a candidate name that is not [A-Za-z0-9_]{1,48} makes the call fail and no USE statement containing such a name is ever received by any node",
             "a failed call leaves the keyspace unconstrained until the next success (documented behaviour); a valid but non-existent name may be reported Ok when no pool holds a connection (counted as use_ok_without_any_connection, not judged)",
@@ -174,7 +176,7 @@ PROPS = {
         "part_engines": {"C15e": "dsim", "C15d": "hsim"},
         "level": "exploration",
         "technique": "deterministic simulation with fault injection (tablet feedback through response payloads under server-side tablet migrations and topology maintenance; reference model = latest-wins list of tablets sent)",
-        "rule": "part C15e (engine A, end-to-end): 2..5 nodes x 1..4 shards, a tablet keyspace whose server-side layout (1..8 tablets over the whole ring, rf 1..3, replicas = (node, shard)) is changed 0..5 times during the run (tablet moved, split, or merged with its neighbour); 10..80 sequential executions of a prepared statement over a small key pool; the mock attaches a tablets-routing-v1 payload exactly when the request reached a non-replica node/shard (as ScyllaDB does) and keeps the reference model of what it has sent (insert = delete overlapping, then add); optionally a node is removed (REMOVED_NODE event) at the end. Non-trivial = at least one payload was sent. Distinct = distinct (poll-sequence hash, event-log hash). Part C15d (hsim, direct history driver over the real TabletsInfo/TableTablets/RawTablet::from_custom_payload through a wrapper): histories of <= 12 steps over a 16-token universe (quick) and up to 200 steps over full i64 (thorough): insert(range, replicas incl. unknown host ids) with every overlap relation (before, adjacent, overlapping left/right, containing, contained, equal, ending at i64::MAX, starting at i64::MIN), rejected payloads (last <= first), and maintenance steps (nodes removed, nodes re-created as new Node objects incl. datacenter change, unknown replicas resolvable or not, table dropped / keyspace no longer tablet-based, second table); after EVERY step every token of the universe is looked up and compared with a plain-vector reference model (oracles c15.lookup, c15.sorted_disjoint, c15.dc_restriction, c15.dc_restriction_dc_change, c15.stale_node, c15.rejected_payload, c15.panic_reresolve_recreated).",
+        "rule": "part C15e (engine A, end-to-end): 2..5 nodes x 1..4 shards, a tablet keyspace whose server-side layout (1..8 tablets over the whole ring, rf 1..3, replicas = (node, shard)) is changed 0..5 times during the run (tablet moved, split, merged with its neighbour, or the boundary to its neighbour shifted by exactly one token in either direction so that the new tablet overlaps a known one in one token); 1 in 3 runs a spare node joins the ring mid-run (with or without NEW_NODE event) and becomes a tablet replica before the client knows it (tablets learnt with an unknown replica; a final refresh must resolve them to the full replica list); 10..80 sequential executions of a prepared statement over a small key pool; the mock attaches a tablets-routing-v1 payload exactly when the request reached a non-replica node/shard (as ScyllaDB does) and keeps the reference model of what it has sent (insert = delete overlapping, then add); optionally a node is removed (REMOVED_NODE event) at the end. Non-trivial = at least one payload was sent. Distinct = distinct (poll-sequence hash, event-log hash). Part C15d (hsim, direct history driver over the real TabletsInfo/TableTablets/RawTablet::from_custom_payload through a wrapper): histories of <= 12 steps over a 16-token universe (quick) and up to 200 steps over full i64 (thorough): insert(range, replicas incl. unknown host ids) with every overlap relation (before, adjacent, overlapping left/right, containing, contained, equal, ending at i64::MAX, starting at i64::MIN), rejected payloads (last <= first), and maintenance steps (nodes removed, nodes re-created as new Node objects incl. datacenter change, unknown replicas resolvable or not, table dropped / keyspace no longer tablet-based, second table); after EVERY step every token of the universe is looked up and compared with a plain-vector reference model (oracles c15.lookup, c15.sorted_disjoint, c15.dc_restriction, c15.dc_restriction_dc_change, c15.stale_node, c15.rejected_payload, c15.panic_reresolve_recreated).",
         "assumptions": COMMON_ASSUMPTIONS + [
             "oracles: (1) a request whose token is covered by a tablet the client had learnt before it was submitted goes to a replica node of that tablet and, when the mock sees a pool connection to that shard, on the tablet's shard; (2) after quiescence ClusterState::get_token_endpoints at every boundary +-1 of every sent or server-side tablet and at the extremes equals the reference model (replica host ids and shards in order; nothing where nothing is known or where a later tablet overlapped or the removed node was a replica)",
             "requests are sequential so that 'most recently learnt' is well defined; feedback is given 20 virtual ms to be applied by the cluster worker",
